@@ -34,7 +34,6 @@ func escapeTemplate(tmpl *Template, node parse.Node, name string) error {
 		// Prevent execution of unsafe templates.
 		if t := tmpl.set[name]; t != nil {
 			t.escapeErr = err
-			t.text.Tree = nil
 			t.Tree = nil
 		}
 		return err
